@@ -22,6 +22,9 @@ def worker(req):
 
 DEEP_IF = impl.HDR + "\n#if " + "(" * 150 + "1" + ")" * 150 + "\n#endif\n"
 FATAL = impl.HDR + "\nint\tmain(void\n{\n\treturn (0);\n}\n"
+UNREC = impl.HDR + "\nint\tmain(void)\n{\n\t)\n\treturn (0);\n}\n"          # fatal because of unrecognised tokens
+GUARD_OK = impl.HDR + "\n#ifndef FOO_H\n# define FOO_H\n\nint\tf(void);\n\n#endif\n"
+GUARD_NODEF = impl.HDR + "\n#ifndef FOO_H\n\nint\tf(void);\n\n#endif\n"       # same guard name, its #define missing
 NESTED = impl.HDR + "\nint\tmain(void)\n{\n\treturn (" + "(" * 60 + "1" + ")" * 60 + ");\n}\n"
 
 
@@ -45,8 +48,10 @@ def run(run, tier, seed, replay=None):
                         break
             files.append((name, src))
         files.append(("nested.c", NESTED))
+        files.append(("foo.h", GUARD_NODEF))
     hist_pool = {"clean": files[0], "erroneous": files[1] if len(files) > 1 else files[0], "fatal": ("f.c", FATAL),
-                 "other-type": ("o.h", "int\tf(void);\n"), "deep-if": ("d.c", DEEP_IF), "nested": ("n.c", NESTED)}
+                 "other-type": ("o.h", "int\tf(void);\n"), "deep-if": ("d.c", DEEP_IF), "nested": ("n.c", NESTED),
+                 "fatal-unrecognised": ("u.c", UNREC), "same-guard-header": ("foo.h", GUARD_OK)}
     # baseline: each file alone in a fresh interpreter
     with ThreadPoolExecutor(common.NPROC) as ex:
         base = list(ex.map(lambda f: worker({"listing_seed": None, "history": [], "files": [list(f)]}), files))
@@ -63,7 +68,8 @@ def run(run, tier, seed, replay=None):
     nh = 10 if tier == "quick" else 80
     for _ in range(nh):
         hists.append([rnd.choice(keys) for _ in range(rnd.randint(1, 3))])
-    hists += [["deep-if"], ["fatal", "deep-if", "nested"], ["erroneous", "erroneous"]]
+    hists += [["deep-if"], ["fatal", "deep-if", "nested"], ["erroneous", "erroneous"], ["fatal-unrecognised"], ["same-guard-header"],
+              ["clean", "fatal-unrecognised", "clean"]]
     reqs = [{"listing_seed": None, "history": [list(hist_pool[k]) for k in h], "files": [list(f) for f in files]} for h in hists]
     # twice in a row, and in reversed order
     reqs.append({"listing_seed": None, "history": [list(f) for f in files], "files": [list(f) for f in files]})
@@ -100,8 +106,8 @@ def run(run, tier, seed, replay=None):
     disc = sum(1 for t in b.theorems if t not in b.open_assumptions) if b.make_ok else 0
     return run.finish(max(len(b.theorems), 7), disc,
                       "conforming and violating programs of the family G (+ a deeply nested file): each analysed alone in a fresh "
-                      "interpreter, then after random histories of length 1..3 over {clean, erroneous, fatal, other type, deep #if, "
-                      "deeply nested} in one process with one Registry, twice in a row, in reversed order, and in fresh interpreters "
+                      "interpreter, then after random histories of length 1..3 over {clean, erroneous, fatal (two kinds), other type, deep #if, "
+                      "deeply nested, a header defining the same guard name} in one process with one Registry, twice in a row, in reversed order, and in fresh interpreters "
                       "whose os.listdir is shuffled (rule discovery order); all diagnostics, the rule order and the recursion limit "
                       "must equal the alone/unshuffled ones; non-trivial = every compared file",
                       assumptions=["the shared-state table is a syntactic over-approximation (no getattr/setattr/exec tricks: the translator fails closed on them)"])
